@@ -299,7 +299,9 @@ func RunScenario(sc *Scenario) *RunResult {
 		evFrom := len(port.Events)
 		wFrom := port.NW
 		eFrom := port.NE
+		t0 := time.Now()
 		out := doCall(vd, c, res)
+		elapsed := time.Since(t0)
 		// C06: a Read that delivers nothing (end of data, an error) ends the attempt it occurs in, so a call performs at
 		// most eight of them (theorem failing_reads_bounded); how the data reads are sized is bufio's business
 		if out != "HANG" && port.NE-eFrom > 8 {
@@ -319,12 +321,14 @@ func RunScenario(sc *Scenario) *RunResult {
 		res.Results = append(res.Results, out)
 		res.PerCallWrites = append(res.PerCallWrites, port.NW-wFrom)
 		callStrs = append(callStrs, callName(c)+"@"+bits)
-		// a retry that found the line idle for 100 ms although nothing in the scenario is slow: the process was stalled
-		// (a loaded machine); what was pending got flushed, the generator's expectation does not apply to this run
-		stalled := len(bits) > 1 && strings.Contains(bits[1:], "1") && len(sc.RDelay) == 0
-		if stalled {
+		// a retry that found the line idle for 100 ms although nothing in the scenario is slow, in a call that really lasted
+		// that long: either the machine stalled the process (transient) or the code under test lets time pass between its
+		// attempts (repeatable). The expectations are applied all the same; Sink.Scenario repeats a scenario whose only
+		// findings come with this mark and reports them if they persist.
+		if len(bits) > 1 && strings.Contains(bits[1:], "1") && len(sc.RDelay) == 0 && elapsed >= 95*time.Millisecond {
 			res.Stalled++
 		}
+		const stalled = false
 		if c.Want != "" && out != c.Want && !stalled {
 			res.Violations = append(res.Violations, fmt.Sprintf("call %d (%s): property demands %s, observed %s", i, callName(c), c.Want, out))
 		}
